@@ -16,16 +16,34 @@ pub const L_POLL: u64 = 4096;
 pub const L_AFTER: u64 = 256;
 pub const HARD: u64 = 2_000_000;
 
-pub const RULE: &str = "valid positions: the C05 mixture, the general mixture (full middlegames) and explosive shapes (rows of pawns one step from promotion on both sides, several queens, long checking sequences), depth 1..5 (or 64 as with a clock-only go), x expiry point k (node-count deadline through the SearchTimer hook): k log-uniform in 1..300k (thorough 3M), and ALL k in 1..T-1 for small searches. Oracle on instrumentation counters after find_best_move returns: first poll that sees the expired budget comes <= 4096 nodes after expiry; <= 256 further nodes are expanded after that observation; the search returns at all (hard cap k+2M nodes turns 'never stops' into a caught panic). Non-trivial = the deadline fell inside the search (a poll returned true before the search would have finished); distinct by (FEN, depth, k). Black-box layer (real binary, real clock): go movetime T / a clock with T left / depth 64 movetime T, T in 0..300 ms, on explosive, middlegame and game positions, optionally after an earlier search in the same process; CPU time consumed between go and bestmove <= T + 300 ms (non-trivial = the last completed iteration is below depth 64, i.e. the clock ended the search).";
+pub const RULE: &str = "valid positions: the C05 mixture, the general mixture (full middlegames) and explosive shapes (rows of pawns one step from promotion on both sides, several queens, long checking sequences), depth 1..5 (or 64 as with a clock-only go), x optional earlier searches without deadline on the same engine (same or neighbouring position, depth 1..4) x expiry point k (node-count deadline through the SearchTimer hook: at node k the timer's own limit becomes zero, the engine's real deadline test decides): k log-uniform in 1..300k (thorough 3M), and ALL k in 1..T-1 for small searches. Oracle on instrumentation counters after find_best_move returns: first poll that sees the expired budget comes <= 4096 nodes after expiry; <= 256 further nodes are expanded after that observation; the search returns at all (hard cap k+2M nodes turns 'never stops' into a caught panic). Non-trivial = the deadline fell inside the search (a poll returned true before the search would have finished); distinct by (FEN, depth, k). Black-box layer (real binary, real clock): go movetime T / a clock with T left / depth 64 movetime T, T in 0..300 ms, on explosive, middlegame and game positions, optionally after an earlier search in the same process; CPU time consumed between go and bestmove <= T + 300 ms (non-trivial = the last completed iteration is below depth 64, i.e. the clock ended the search).";
 
 thread_local! {
     static KMAX: Cell<u64> = Cell::new(300_000);
 }
 
 pub fn judge(p: &Pos, d: u8, k: u64, stats: &mut Stats, gen_kind: &str) -> Verdict {
+    judge_after(&[], p, d, k, stats, gen_kind)
+}
+
+/// `earlier`: searches without any deadline run on the same engine before the one under test
+/// ("at every point of the search" includes searches that are not the first of their process).
+pub fn judge_after(earlier: &[(Pos, u8)], p: &Pos, d: u8, k: u64, stats: &mut Stats, gen_kind: &str) -> Verdict {
     let b = eng::to_board(p);
     let fen = p.fen(0, 1);
     let mut searcher = Searcher::new();
+    let mut earlier_nodes: Vec<u64> = Vec::new();
+    for (q, dq) in earlier {
+        searcher.verif_set_node_limit(None);
+        searcher.verif_set_hard_cap(Some(400_000));
+        let bq = eng::to_board(q);
+        if std::panic::catch_unwind(std::panic::AssertUnwindSafe(|| searcher.find_best_move(&bq, *dq, None))).is_err() {
+            stats.exclude("earlier unlimited search over the node watchdog");
+            return Ok(());
+        }
+        earlier_nodes.push(searcher.verif_nodes());
+    }
+    let earlier_desc: Vec<Value> = earlier.iter().zip(earlier_nodes.iter()).map(|((q, dq), n)| json!({"fen": q.fen(0, 1), "depth": dq, "nodes": n})).collect();
     searcher.verif_set_node_limit(Some(k));
     searcher.verif_set_hard_cap(Some(k + HARD));
     let r = std::panic::catch_unwind(std::panic::AssertUnwindSafe(|| searcher.find_best_move(&b, d, None)));
@@ -33,7 +51,7 @@ pub fn judge(p: &Pos, d: u8, k: u64, stats: &mut Stats, gen_kind: &str) -> Verdi
     if let Err(pn) = r {
         let msg = crate::panic_text(&pn);
         if msg.contains("node hard cap") {
-            return Err(Failure::new("search-does-not-stop", json!({"fen": fen, "depth": d, "deadline_nodes": k, "expanded_more_than": k + HARD, "gen": gen_kind})));
+            return Err(Failure::new("search-does-not-stop", json!({"fen": fen, "depth": d, "deadline_nodes": k, "expanded_more_than": k + HARD, "gen": gen_kind, "earlier_searches_on_this_engine": earlier_desc})));
         }
         return Err(Failure::new("search-panic", json!({"fen": fen, "depth": d, "deadline_nodes": k, "panic": msg})));
     }
@@ -44,23 +62,29 @@ pub fn judge(p: &Pos, d: u8, k: u64, stats: &mut Stats, gen_kind: &str) -> Verdi
         None => {
             // the search finished (or never polled) before the deadline
             if nodes > k + L_POLL {
-                return Err(Failure::new("deadline-never-observed", json!({"fen": fen, "depth": d, "deadline_nodes": k, "nodes_at_return": nodes, "gen": gen_kind})));
+                return Err(Failure::new("deadline-never-observed", json!({"fen": fen, "depth": d, "deadline_nodes": k, "nodes_at_return": nodes, "gen": gen_kind, "earlier_searches_on_this_engine": earlier_desc})));
             }
             stats.class("finished_before_deadline");
         }
         Some(f) => {
             if f.saturating_sub(k) > L_POLL {
-                return Err(Failure::new("deadline-observed-late", json!({"fen": fen, "depth": d, "deadline_nodes": k, "first_observed_at": f, "allowed": L_POLL, "gen": gen_kind})));
+                return Err(Failure::new("deadline-observed-late", json!({"fen": fen, "depth": d, "deadline_nodes": k, "first_observed_at": f, "allowed": L_POLL, "gen": gen_kind, "earlier_searches_on_this_engine": earlier_desc})));
             }
             if nodes - f > L_AFTER {
-                return Err(Failure::new("work-after-deadline-observed", json!({"fen": fen, "depth": d, "deadline_nodes": k, "first_observed_at": f, "nodes_at_return": nodes, "allowed": L_AFTER, "gen": gen_kind})));
+                return Err(Failure::new("work-after-deadline-observed", json!({"fen": fen, "depth": d, "deadline_nodes": k, "first_observed_at": f, "nodes_at_return": nodes, "allowed": L_AFTER, "gen": gen_kind, "earlier_searches_on_this_engine": earlier_desc})));
             }
             stats.maximum("max_observation_latency_nodes", (f - k.min(f)) as i64);
             stats.maximum("max_nodes_after_observation", (nodes - f) as i64);
             stats.class("deadline_inside_search");
+            if !earlier.is_empty() {
+                stats.class("deadline_inside_search_after_earlier_searches");
+                if earlier_nodes.iter().any(|n| *n > k) {
+                    stats.class("deadline_earlier_than_an_earlier_search_was_long");
+                }
+            }
             stats.class(&format!("inside_{}", gen_kind));
             stats.nontrivial(&(p.fen4(), d, k));
-            stats.sample(|| json!({"fen": fen, "depth": d, "deadline_nodes": k, "first_observed_at": f, "nodes_at_return": nodes, "gen": gen_kind}));
+            stats.sample(|| json!({"fen": fen, "depth": d, "deadline_nodes": k, "first_observed_at": f, "nodes_at_return": nodes, "gen": gen_kind, "earlier_searches_on_this_engine": earlier_desc}));
         }
     }
     Ok(())
@@ -87,7 +111,23 @@ fn part_sampled(bytes: &[u8], stats: &mut Stats) -> Verdict {
     let bits = (64 - kmax.leading_zeros()) as usize;
     let e = s.below(bits);
     let k = ((1u64 << e) + (s.u32() as u64 % (1u64 << e))).min(kmax).max(1);
-    judge(&p, d, k, stats, kind)
+    // 40%: one or two earlier searches (no deadline) of the same or a neighbouring position
+    let mut earlier: Vec<(Pos, u8)> = Vec::new();
+    if s.chance(40) {
+        for _ in 0..1 + s.below(2) {
+            let q = if s.bool() {
+                p.clone()
+            } else {
+                let legal = p.legal_moves();
+                match gen::choose_move(&mut s, &p, &legal) {
+                    Some(m) if !p.make(m).legal_moves().is_empty() => p.make(m),
+                    _ => p.clone(),
+                }
+            };
+            earlier.push((q, 1 + s.below(4) as u8));
+        }
+    }
+    judge_after(&earlier, &p, d, k, stats, kind)
 }
 
 fn part_enumerated(bytes: &[u8], stats: &mut Stats) -> Verdict {
@@ -154,16 +194,17 @@ fn part_blackbox(bytes: &[u8], stats: &mut Stats) -> Verdict {
         }
         _ => format!("go depth 64 movetime {}", t_ms),
     };
-    let warm = s.chance(30);
+    let warm_depth = 1 + s.below(5) as u8;
+    let warm = s.chance(45) && crate::script::cheap_search(&p, warm_depth, 400_000);
     let mut pr = match Proc::spawn() {
         Ok(p) => p,
         Err(e) => return Err(Failure::new("harness-engine-missing", json!({"error": e}))),
     };
     let mut script = Vec::new();
     if warm {
-        // an earlier, short search of the same position (fills the table)
+        // an earlier depth-limited search of the same position, possibly longer than the budget of the go under test
         script.push(format!("position fen {}", fen));
-        script.push("go movetime 5".to_string());
+        script.push(format!("go depth {}", warm_depth));
     }
     script.push(format!("position fen {}", fen));
     for l in &script {
